@@ -51,6 +51,6 @@ theorem pos_cast {n : Nat} (h : n > 0) : ((n : Int) > 0) = True := by
   simpa using this
 
 macro "cancel_eval" : tactic => `(tactic|
-  (simp (config := { decide := true }) [runMethod, exec, exec.execH, eval, builtin, ext, upd, Val.truthy, cmpInt, *]))
+  (simp (config := { decide := true }) [runMethod, exec, exec.execH, eval, builtin, ext, upd, Val.truthy, Val.same, cmpInt, *]))
 
 end Haiway.Bridge.Cancel
